@@ -4,6 +4,7 @@ import Gv.Proofs.StatsSites
 import Gv.Proofs.StatsUnique
 import Gv.Proofs.StatsDiff
 import Gv.Proofs.StatsMut
+import Gv.Proofs.StatsProfile
 /-!
 # C14 — column statistics and consensus match definitions and are deterministic
 
@@ -572,6 +573,70 @@ theorem maxCharSite_is_argmax (alphabet : Nat) (ig iN : Bool) (col : List Byte) 
   intro all
   exact maxLoop_is_argmax ig iN all (toLower all) (countUpper col) (countUpper_pos col) _ _
 
+/-! ## count profile -/
+
+/-- `NewCountProfileFromAlignment` crashes (index into the 130-entry `names`) exactly when a residue is ≥ 130 -/
+theorem countProfile_panic_iff (rows : CRows) (L : Int) :
+    countProfile rows L = none ↔ ∃ r ∈ rows, ∃ c ∈ r.2, c ≥ 130 := by
+  unfold countProfile
+  by_cases h : rows.any (fun r => r.2.any fun c => c ≥ 130) = true
+  · simp only [h, if_true, true_iff]
+    simpa using h
+  · have h' : rows.any (fun r => r.2.any fun c => c ≥ 130) = false := Bool.eq_false_iff.mpr h
+    simp only [h', Bool.false_eq_true, if_false, reduceCtorEq, false_iff]
+    intro hh; apply h; simpa using hh
+
+/-- **the count profile is the naive per-site recount**: the header lists the characters in order of first
+appearance (row after row, left to right); every character has one counter per site; a character is in the
+profile exactly when it occurs in the alignment; its counter at site `j` is the number of rows holding it there -/
+theorem countProfile_eq_spec (rows : CRows) (L : Int) (prof : List (Byte × List Nat))
+    (h : countProfile rows L = some prof) :
+    prof.map Prod.fst = Spec.profileHeader rows ∧
+    (∀ q v, lookup q prof = some v → v.length = L.toNat) ∧
+    (∀ q, (lookup q prof).isSome = true ↔ q ∈ rows.flatMap Prod.snd) ∧
+    (∀ q j, j < L.toNat → ((lookup q prof).getD (List.replicate L.toNat 0)).getD j 0 = Spec.profileCountAt rows j q) := by
+  unfold countProfile at h
+  split at h
+  · simp at h
+  · simp only [Option.some.injEq] at h
+    subst h
+    exact Proofs.StatsProfile.profile_spec rows L.toNat
+
+/-- **`Count(r, site)`** on that profile: an index panic for `r ≥ 130`, an error for a character that does not occur
+or a site outside `[0, L)`, otherwise the number of rows holding `r` at that site -/
+theorem profileCount_eq_spec (rows : CRows) (L : Int) (prof : List (Byte × List Nat))
+    (h : countProfile rows L = some prof) (r : Byte) (site : Int) :
+    profileCount prof r site = if r ≥ 130 then none else some (Spec.profileCount rows L.toNat r site) := by
+  obtain ⟨_, h2, h3, h4⟩ := countProfile_eq_spec rows L prof h
+  unfold profileCount Spec.profileCount
+  by_cases hr : r ≥ 130
+  · simp [hr]
+  · simp only [hr, if_false, Option.some.injEq]
+    cases hl : lookup r prof with
+    | none =>
+      have : ¬ r ∈ rows.flatMap Prod.snd := by
+        intro hm
+        have := (h3 r).mpr hm
+        rw [hl] at this; simp at this
+      simp [this]
+    | some cs =>
+      have hm : r ∈ rows.flatMap Prod.snd := (h3 r).mp (by rw [hl]; rfl)
+      have hlen := h2 r cs hl
+      simp only []
+      by_cases hs : site < 0 ∨ site ≥ (cs.length : Int)
+      · have h1 : (decide (site < 0) || decide (site ≥ (cs.length : Int))) = true := by simpa using hs
+        have h5 : ¬ (r ∈ rows.flatMap Prod.snd ∧ 0 ≤ site ∧ site < (L.toNat : Int)) := by
+          rw [hlen] at hs; omega
+        rw [if_pos h1, if_neg h5]
+      · have h1 : ¬ ((decide (site < 0) || decide (site ≥ (cs.length : Int))) = true) := by simpa using hs
+        have h5 : r ∈ rows.flatMap Prod.snd ∧ 0 ≤ site ∧ site < (L.toNat : Int) := by
+          rw [hlen] at hs; exact ⟨hm, by omega, by omega⟩
+        rw [if_neg h1, if_pos h5]
+        have := h4 r site.toNat (by rw [hlen] at hs; omega)
+        rw [hl] at this
+        simp only [Option.getD_some] at this
+        rw [this]
+
 /-! ## non-vacuity -/
 
 example : maxLoop false false 78 110 [(65, 2), (67, 2), (71, 1)] (71, 5, 0, 0) = (65, 2, 5, 2) := by decide
@@ -581,6 +646,10 @@ example : maxLoop false false 78 110 [(67, 2), (71, 1), (65, 2)] (71, 5, 0, 0) =
 def exRows : CRows := [("a", [65, 99, 78, 45]), ("b", [97, 71, 78, 45]), ("c", [67, 71, 84, 46]), ("d", [67, 67, 84, 65])]
 
 example : maxCharSite 1 false false [65, 99, 67, 97] = (65, 2, 4) ∧ countUpper [65, 99, 67, 97] = [(65, 2), (67, 2)] := by decide
+example : countProfile exRows 4 = some [(65, [1, 0, 0, 1]), (99, [0, 1, 0, 0]), (78, [0, 0, 2, 0]), (45, [0, 0, 0, 2]),
+    (97, [1, 0, 0, 0]), (71, [0, 2, 0, 0]), (67, [2, 1, 0, 0]), (84, [0, 0, 2, 0]), (46, [0, 0, 0, 1])] := by decide
+example : Spec.profileCount exRows 4 67 0 = some 2 ∧ Spec.profileCount exRows 4 67 4 = none ∧
+    Spec.profileCount exRows 4 90 0 = none := by decide
 example : charStatsSite exRows 4 1 = some [(67, 2), (71, 2)] := by decide
 example : Spec.charStatsSite exRows 4 1 = some [(67, 2), (71, 2)] := by decide
 example : charStatsSite exRows 4 4 = none ∧ charStatsSite exRows 4 (-1) = none := by decide
